@@ -68,6 +68,8 @@ Init ==
      /\ \E t \in UnitVar : u1 = t[1] /\ u2 = t[2] /\ u3 = t[3]
   \/ /\ j \in 0..4 /\ c1 = NConn - 1 /\ c2 = NConn /\ c3 \in 1..NConn
      /\ \E t \in UnitVar : u1 = t[1] /\ u2 = t[2] /\ u3 = t[3]
+  \* a unit that is the whole statement
+  \/ /\ j = 0 /\ c1 = 0 /\ c2 = 0 /\ c3 = 0 /\ u1 \in 1..NUnits /\ u2 = 1 /\ u3 = 1
   \* two assignments of any kind followed by any connector
   \/ /\ j = 0 /\ c1 \in (Len(InfixOps) + 1)..(Len(InfixOps) + 3) /\ c2 \in (Len(InfixOps) + 1)..(Len(InfixOps) + 3) /\ c3 \in 1..NConn
      /\ u1 = 1 /\ u2 = 1 /\ u3 = 1
